@@ -22,6 +22,12 @@ pub enum Step {
     NextMany { key: u8, n: u8 },
     Range { key: u8, n: u8 },
     Publish { key: KeyIx, variant: u8 },
+    /// publish the content the key already has (a no-op for the store, but the leader still draws a history id for it,
+    /// and it may be the publish that carries the next reserved block of the config sequence)
+    #[serde(alias = "RePublish")]
+    Republish { key: KeyIx },
+    /// n publishes in a row on one key (history ids cross the 100-id block of the config sequence)
+    PublishMany { key: KeyIx, n: u8 },
     Compact,
     CompactConcurrent,
     Restart,
@@ -41,6 +47,8 @@ fn step_strategy() -> impl Strategy<Value = Step> {
         3 => (0u8..3, 20u8..130).prop_map(|(key, n)| Step::NextMany { key, n }),
         3 => (0u8..3, 1u8..40).prop_map(|(key, n)| Step::Range { key, n }),
         6 => ((0u8..2, 0u8..2, 0u8..3), 0u8..20).prop_map(|((tenant, group, id), variant)| Step::Publish { key: KeyIx { tenant, group, id }, variant }),
+        3 => (0u8..2, 0u8..2, 0u8..3).prop_map(|(tenant, group, id)| Step::Republish { key: KeyIx { tenant, group, id } }),
+        1 => ((0u8..2, 0u8..2, 0u8..3), 60u8..130).prop_map(|((tenant, group, id), n)| Step::PublishMany { key: KeyIx { tenant, group, id }, n }),
         2 => Just(Step::Compact),
         1 => Just(Step::CompactConcurrent),
         2 => Just(Step::Restart),
@@ -183,6 +191,7 @@ fn run_case_inner(case: &Case, work: &Path, tag: &str, dir: &Path, strict: bool)
     let mut restarted_after_compaction = false;
     let mut stale_restart = false;
     let mut publish_no = 0u32;
+    let mut current: BTreeMap<String, String> = BTreeMap::new();
     let mut excluded_stale = 0u64;
     let known_stale = !strict && is_open("C19", KNOWN_STALE);
     loop {
@@ -212,10 +221,35 @@ fn run_case_inner(case: &Case, work: &Path, tag: &str, dir: &Path, strict: bool)
                 Step::Publish { key, variant } => {
                     publish_no += 1;
                     meaning.push((ops.len(), "publish".into(), None));
+                    current.insert(format!("{:?}", key), format!("content-{}-{}", variant, publish_no));
                     ops.push(NodeOp::Publish {
                         key: key.clone(),
                         value: format!("content-{}-{}", variant, publish_no),
                     });
+                }
+                Step::Republish { key } => {
+                    let kk = format!("{:?}", key);
+                    let value = match current.get(&kk) {
+                        Some(v) => v.clone(),
+                        None => {
+                            publish_no += 1;
+                            format!("content-first-{}", publish_no)
+                        }
+                    };
+                    current.insert(kk, value.clone());
+                    meaning.push((ops.len(), "publish".into(), None));
+                    ops.push(NodeOp::Publish { key: key.clone(), value });
+                    labels.insert("republish_unchanged_content".into());
+                }
+                Step::PublishMany { key, n } => {
+                    for _ in 0..*n {
+                        publish_no += 1;
+                        let value = format!("content-m-{}", publish_no);
+                        current.insert(format!("{:?}", key), value.clone());
+                        meaning.push((ops.len(), "publish".into(), None));
+                        ops.push(NodeOp::Publish { key: key.clone(), value });
+                    }
+                    labels.insert("history_ids_cross_block".into());
                 }
                 Step::Compact => {
                     ops.push(NodeOp::Compact);
@@ -413,15 +447,21 @@ pub fn main(ctx: &Ctx) -> i32 {
     let work = work_dir(ctx);
     let fin = || Finish {
         level: "exploration",
-        rule: "histories (6..50 steps) on a real single-node Raft node in child processes: next-id draws (single and 20..130 in a row, crossing the 100-id cache ranges) and direct ranges on 3 named sequences through the SequenceManager actor, config publishes through ConfigAsyncCmd::Add (history ids from the config sequence), awaited and concurrent compactions, clean restarts and restarts whose last-applied header was rewound by 1..30 entries (never below the newest snapshot) so that start-up re-applies a log suffix. A monitor over every id ever handed out: per sequence no id twice (next ids and range members together), next ids strictly increasing, range starts strictly increasing; config history ids pairwise distinct over all keys and strictly newest-first per key, newest id per key never decreasing. non-trivial = an id issued after a restart that followed a compaction, or a restart with a replayed suffix; distinct = hash of the case".into(),
+        rule: "histories (6..50 steps) on a real single-node Raft node in child processes: next-id draws (single and 20..130 in a row, crossing the 100-id cache ranges) and direct ranges on 3 named sequences through the SequenceManager actor, config publishes through ConfigAsyncCmd::Add (history ids from the config sequence; single, 60..130 in a row, and re-publishes of the unchanged content, which draw an id without writing a history entry), awaited and concurrent compactions, clean restarts and restarts whose last-applied header was rewound by 1..30 entries (never below the newest snapshot) so that start-up re-applies a log suffix. A monitor over every id ever handed out: per sequence no id twice (next ids and range members together), next ids strictly increasing, range starts strictly increasing; config history ids pairwise distinct over all keys and strictly newest-first per key, newest id per key never decreasing. non-trivial = an id issued after a restart that followed a compaction, or a restart with a replayed suffix; distinct = hash of the case. CLUSTER TIER (label cluster_tier): schedules of 10..36 ops on a real 3-node cluster - tool-spec adds (next id of the receiving node's SequenceManager), 30..125 adds in a row, batch adds (direct range), concurrent bursts through all three nodes, MCP server adds (server id + value ids), config publishes (single / 20..110 in a row; history ids from the leader's config sequence), kill -9 of a node or of the leader, heal, full-cluster restart, pauses; after healing and quiescence every node's view must show: no tool-spec version twice, per issuing node the acknowledged draws strictly increasing in issue order (next and range streams apart, a batch = one contiguous range), server ids / value ids distinct, config history ids pairwise distinct over all keys (generated and sentinel), strictly newest-first per key and increasing in the writer's order; non-trivial there = the same sequence drawn through >= 2 nodes and an acknowledged draw after a leader kill".into(),
         assumptions: vec![
-            "single node tier; several nodes drawing concurrently and leader changes are not exercised here (see DESIGN C19 / C06 cluster tier)".into(),
+            "two tiers: a single real node in child processes (restarts, compactions, replayed suffix) and real 3-node clusters (c19c.rs: ids drawn through every node's own SequenceManager by the console API, sequentially and in concurrent bursts, kill -9 of nodes / leaders, full restarts, snapshot thresholds 20 / 60 / none); message schedules between processes are sampled by real execution, not controlled".into(),
             "monotonicity is per stream (next-id stream, range stream): cached ranges make a later next-id smaller than an earlier direct range by design".into(),
             "no explicit SetId / RemoveId resets are generated".into(),
         ],
         exhaustive: None,
     };
     if let Some(p) = &ctx.replay {
+        if let Ok(cc) = read_replay::<crate::c19c::ClusterCase>(p) {
+            std::env::set_var("RNV_CASE_TIMEOUT_MS", "600000");
+            let r = finish_replay(ctx, crate::c19c::run_case(&cc, &work, ctx.seed), p);
+            std::fs::remove_dir_all(&work).ok();
+            return r;
+        }
         let r = match read_replay::<Case>(p) {
             Ok(c) => {
                 let mut rep = run_case_mode(&c, &work, true);
@@ -459,13 +499,43 @@ pub fn main(ctx: &Ctx) -> i32 {
             }
         }
     }
-    let n = ctx.tier.pick(160u32, 3000u32);
+    // RNV_C19_TIER=cluster|single restricts a run to one tier (development / sensitivity runs only)
+    let only = std::env::var("RNV_C19_TIER").unwrap_or_default();
+    let n = if only == "cluster" { 0 } else { ctx.tier.pick(160u32, 3000u32) };
     let w2 = work.clone();
     let fail = run_cases(ctx, &stats, (|| case_strategy().boxed()) as fn() -> _, n, cores(), 100, move |c| run_case(c, &w2));
-    std::fs::remove_dir_all(&work).ok();
     stats.excluded_known.fetch_add(EXCLUDED.load(Ordering::Relaxed), Ordering::Relaxed);
     if is_open("C19", KNOWN_STALE) {
         stats.known.lock().unwrap().insert(KNOWN_STALE.to_string(), EXCLUDED.load(Ordering::Relaxed));
     }
-    finish(ctx, &stats, fin(), fail)
+    if fail.is_some() {
+        std::fs::remove_dir_all(&work).ok();
+        return finish(ctx, &stats, fin(), fail);
+    }
+    // ---- cluster tier (c19c.rs): several nodes drawing from the same sequences, leader changes
+    std::env::set_var("RNV_CASE_TIMEOUT_MS", "600000");
+    let seed = ctx.seed;
+    let w3 = work.clone();
+    let stats_c = stats.clone();
+    for p in saved_replays(&ctx.id) {
+        if let Ok(case) = read_replay::<crate::c19c::ClusterCase>(&p) {
+            let mut rep = crate::c19c::run_case(&case, &work, seed);
+            if matches!(rep.verdict, Verdict::Discard(_)) {
+                rep = crate::c19c::run_case(&case, &work, seed);
+            }
+            stats_c.label("saved_replay_rerun");
+            stats_c.record(&case, &rep);
+            if let Verdict::Violation(m) = &rep.verdict {
+                write_evidence(ctx, &stats, &fin(), 1);
+                println!("violation detail: {}", m);
+                println!("VIOLATION property={} replay={}", ctx.id, p.display());
+                std::fs::remove_dir_all(&work).ok();
+                return 1;
+            }
+        }
+    }
+    let n_cluster = if only == "single" { 0 } else { ctx.tier.pick(12u32, 96u32) };
+    let failc = run_cases(ctx, &stats, (|| crate::c19c::case_strategy()) as fn() -> _, n_cluster, 6, 6, move |c| crate::c19c::run_case(c, &w3, seed));
+    std::fs::remove_dir_all(&work).ok();
+    finish(ctx, &stats, fin(), failc)
 }
